@@ -176,6 +176,9 @@ def check(an: Analysis) -> None:
                 if not isinstance(parent(c2), ast.Await):
                     ob.fail(aenter, c2, "the roll-back is not awaited")
                 if errs:
+                    bad = _index_out_of_range([c2], errs, 1)
+                    if bad is not None:
+                        ob.fail(aenter, c2, f"with a single failed enter `{stmt_text(bad)}` is out of range: the roll-back dies with IndexError and the entered disposables are never exited")
                     rbn = [n for n in ge.nodes if n.kind == "call" and n.ast is c2]
                     for n_err in (1, 2):
                         env = _len_env(de, errs, n_err)
@@ -406,6 +409,15 @@ def _len_env(d: Deps, names: list[str], n: int):
     return with_locals(d, env)
 
 
+def _index_out_of_range(nodes, names: list[str], k: int):
+    """Subscripts `<errors>[i]` with constant i >= k among the AST nodes (IndexError in the scenario of k errors)."""
+    for n in nodes:
+        for x in ast.walk(n):
+            if isinstance(x, ast.Subscript) and isinstance(x.value, ast.Name) and x.value.id in names and isinstance(x.slice, ast.Constant) and isinstance(x.slice.value, int) and x.slice.value >= k:
+                return x
+    return None
+
+
 def _collected_errors_surface(an: Analysis, ob, fi: FunctionInfo, g: CFG, d: Deps, gather: ast.Call | None) -> None:
     errs = _error_collections(an, fi, d, gather)
     if not errs:
@@ -422,6 +434,9 @@ def _collected_errors_surface(an: Analysis, ob, fi: FunctionInfo, g: CFG, d: Dep
             ob.fail(fi, w[-2].ast if len(w) > 1 and w[-2].ast is not None else None, f"with {k} failing cleanup(s) Disposables.__aexit__ returns normally: the error vanishes", CFG.show_path(w))
         reach = g.reachable([g.entry], skip_edge=sc)
         for r in [r for r in raises if r.id in reach]:
+            bad = _index_out_of_range([r.ast], errs, k)
+            if bad is not None:
+                ob.fail(fi, r.ast, f"with {k} failing cleanup(s) `{stmt_text(bad)}` is out of range: the caller gets an IndexError instead of the cleanup error")
             direct = any(nm in {x.id for x in ast.walk(r.ast) if isinstance(x, ast.Name)} for nm in errs)
             via = "call:asyncio.gather" in d.of(r.ast.exc)  # type: ignore[union-attr]
             if not (direct or via):
